@@ -1,7 +1,169 @@
-(* C13: proofs about the shape of snapshots produced by M. *)
-From TT Require Import Model.Doc Gen.StyleTables Model.Isd Spec.IsdShape Proofs.Common.ElemInd.
+(* C13: shape clauses of snapshots produced by M, for every document and time. *)
+From TT Require Import Model.Doc Gen.StyleTables Model.Isd Spec.IsdSpec Spec.IsdShape Proofs.Common.ElemInd Proofs.Common.StyleFrame.
+From TT Require Import Proofs.C01.Lwsp.
 
-(* every element of a snapshot is built by isd_attrs: no timing, no animation, no region reference *)
-Lemma isd_attrs_clean a st :
-  e_begin (isd_attrs a st) = None /\ e_end (isd_attrs a st) = None /\ e_anims (isd_attrs a st) = [] /\ e_region (isd_attrs a st) = None.
-Proof. repeat split. Qed.
+Lemma all_elems_node a cs : all_elems (Elem a cs) = Elem a cs :: flat_map all_elems cs.
+Proof. reflexivity. Qed.
+
+(* ---- clauses that only look at attributes other than the text ------------------------------------------- *)
+Section AttrPredicate.
+  Variable pa : attrs -> bool.
+  Hypothesis pa_text : forall a t,
+    pa (mkAttrs (e_kind a) (e_id a) (e_begin a) (e_end a) (e_region a) (e_styles a) (e_anims a) (e_preserve a) (e_lang a) t) = pa a.
+  Definition allp (e : elem) : bool := forallb (fun x => pa (eattrs x)) (all_elems e).
+  Definition allp_list (l : list elem) : bool := forallb allp l.
+
+  Lemma allp_node a cs : allp (Elem a cs) = pa a && allp_list cs.
+  Proof.
+    unfold allp. rewrite all_elems_node. cbn [forallb eattrs]. f_equal. unfold allp_list.
+    induction cs as [|c cs IH]; [reflexivity|]. cbn [flat_map forallb]. rewrite forallb_app, IH. reflexivity.
+  Qed.
+
+  Lemma assign_texts_allp : forall e ts, allp (fst (assign_texts e ts)) = allp e.
+  Proof.
+    induction e as [a cs IH] using elem_ind2. intros ts. rewrite assign_node.
+    assert (Hl : forall ts, allp_list (fst (assign_list cs ts)) = allp_list cs).
+    { clear ts. induction cs as [|c cs IHcs]; intros ts; [reflexivity|]. inversion IH as [|? ? Hc Hcs]; subst.
+      cbn [assign_list]. specialize (Hc ts). destruct (assign_texts c ts) as [c' ts1]. cbn [fst] in Hc.
+      specialize (IHcs Hcs ts1). destruct (assign_list cs ts1) as [l'' ts2]. cbn [fst allp_list forallb] in *.
+      rewrite Hc. f_equal. exact IHcs. }
+    assert (HT : allp (Elem (mkAttrs (e_kind a) (e_id a) (e_begin a) (e_end a) (e_region a) (e_styles a) (e_anims a)
+                                     (e_preserve a) (e_lang a) (hd [] ts)) cs) = allp (Elem a cs))
+      by (rewrite !allp_node, pa_text; reflexivity).
+    destruct (e_kind a) eqn:Ek; cbn [skips_text_list fst]; try reflexivity;
+      try (specialize (Hl ts); destruct (assign_list cs ts) as [cs' ts']; cbn [fst] in *; rewrite !allp_node, Hl; reflexivity).
+    destruct (is_nonempty (e_text a)); cbn [fst]; [exact HT | reflexivity].
+  Qed.
+
+  Lemma prune_allp : forall e, allp e = true -> allp (prune_empty e) = true.
+  Proof.
+    induction e as [a cs IH] using elem_ind2. rewrite prune_empty_node, !allp_node. intros H.
+    apply andb_true_iff in H as [Ha Hcs]. rewrite Ha. cbn [andb].
+    induction cs as [|c cs IHcs]; [reflexivity|]. inversion IH as [|? ? Hc Hrest]; subst.
+    cbn [allp_list forallb] in Hcs. apply andb_true_iff in Hcs as [H1 H2].
+    rewrite prune_list_cons. cbv zeta.
+    match goal with |- allp_list (if ?b then _ else _) = true => destruct b end; [apply IHcs; assumption|].
+    cbn [allp_list forallb]. rewrite (Hc H1). cbn [andb]. apply IHcs; assumption.
+  Qed.
+  Lemma prune_list_allp cs : allp_list cs = true -> allp_list (prune_list cs) = true.
+  Proof.
+    induction cs as [|c cs IHcs]; [reflexivity|]. intros Hcs.
+    cbn [allp_list forallb] in Hcs. apply andb_true_iff in Hcs as [H1 H2].
+    rewrite prune_list_cons. cbv zeta.
+    match goal with |- allp_list (if ?b then _ else _) = true => destruct b end; [apply IHcs; assumption|].
+    cbn [allp_list forallb]. rewrite (prune_allp c H1). cbn [andb]. apply IHcs; assumption.
+  Qed.
+
+  Lemma lwsp_children_allp a cs : allp_list cs = true -> allp_list (lwsp_children a cs) = true.
+  Proof.
+    intros H. unfold lwsp_children. rewrite prune_empty_node. cbn [echildren]. apply prune_list_allp.
+    rewrite assign_children_list.
+    generalize (process_lwsp (collect_children a cs)). induction cs as [|c cs IHcs]; intros ts; [reflexivity|].
+    cbn [allp_list forallb] in H. apply andb_true_iff in H as [H1 H2]. cbn [assign_list].
+    pose proof (assign_texts_allp c ts) as Hc. destruct (assign_texts c ts) as [c' ts1]. cbn [fst] in Hc.
+    specialize (IHcs H2 ts1). destruct (assign_list cs ts1) as [l'' ts2]. cbn [fst allp_list forallb] in *.
+    rewrite Hc, H1. exact IHcs.
+  Qed.
+
+  (* every element M puts into a snapshot satisfies pa, provided the attributes built from a successful style
+     phase that does not compute display:none do *)
+  Hypothesis pa_out : forall d t a par iv st,
+    style_phase d t a par iv = Ok st -> display_none st = false -> pa (isd_attrs a (strip_inapplicable (e_kind a) st)) = true.
+
+  Lemma finish_element_allp a st children r :
+    pa (isd_attrs a (strip_inapplicable (e_kind a) st)) = true ->
+    allp_list children = true -> finish_element a st children = Ok (Some r) -> allp r = true.
+  Proof.
+    unfold finish_element. intros Hpa Hc H.
+    destruct (negb (push_children_ok (e_kind a) children) && is_nonempty_l children); [discriminate|].
+    set (children' := match e_kind a with
+                      | KP | KRt | KRtc => match children with [] => [] | _ => lwsp_children (isd_attrs a st) children end
+                      | _ => children end) in H.
+    assert (Hc' : allp_list children' = true).
+    { unfold children'. destruct (e_kind a); try exact Hc; (destruct children; [reflexivity | apply lwsp_children_allp; exact Hc]). }
+    assert (Hn : allp (Elem (isd_attrs a (strip_inapplicable (e_kind a) st)) children') = true) by (rewrite allp_node, Hpa, Hc'; reflexivity).
+    destruct (keep_always (e_kind a)); [injection H as <-; exact Hn|].
+    destruct children'; [|injection H as <-; exact Hn].
+    destruct (e_kind a); try discriminate.
+    destruct (sget (strip_inapplicable KRegion st) p_ShowBackground) as [v|]; [|discriminate].
+    destruct v; try discriminate. destruct (tag =? e_ShowBackgroundType_always); [injection H as <-; exact Hn | discriminate].
+  Qed.
+
+  Lemma proc_allp d t sel : forall e inh par pb pe r, proc d t sel inh par pb pe e = Ok (Some r) -> allp r = true.
+  Proof.
+    induction e as [a cs IH] using elem_ind2. intros inh par pb pe r H. cbn [proc] in H.
+    destruct (negb (active_at t _)); [discriminate|].
+    match type of H with (if ?b then _ else _) = _ => destruct b end; [discriminate|].
+    destruct (style_phase d t a par _) as [st|] eqn:Est; [|discriminate]. cbn [bind] in H.
+    destruct (display_none st) eqn:Edn; [discriminate|].
+    match type of H with bind ?g _ = _ => destruct g as [children|] eqn:Eg end; [|discriminate]. cbn [bind] in H.
+    apply (finish_element_allp a st children r); [apply (pa_out _ _ _ _ _ _ Est Edn)| |exact H].
+    clear H. revert children Eg. induction cs as [|c cs IHcs]; intros children Eg.
+    - injection Eg as <-. reflexivity.
+    - inversion IH as [|? ? Hc Hcs]; subst.
+      match type of Eg with bind ?g _ = _ => destruct g as [rc|] eqn:Ec end; [|discriminate]. cbn [bind] in Eg.
+      match type of Eg with bind ?g _ = _ => destruct g as [rs|] eqn:Er end; [|discriminate]. cbn [bind] in Eg. injection Eg as <-.
+      specialize (IHcs Hcs rs eq_refl). destruct rc as [x|]; [|exact IHcs].
+      cbn [allp_list forallb]. rewrite (Hc _ _ _ _ _ Ec). exact IHcs.
+  Qed.
+
+  Lemma proc_region_allp d t sel r res : proc_region d t sel r = Ok (Some res) -> allp res = true.
+  Proof.
+    unfold proc_region. intros H. destruct (negb (active_at t _)); [discriminate|].
+    destruct (style_phase d t _ None _) as [st|] eqn:Est; [|discriminate]. cbn [bind] in H.
+    destruct (display_none st) eqn:Edn; [discriminate|].
+    match type of H with bind ?g _ = _ => destruct g as [children|] eqn:Eg end; [|discriminate]. cbn [bind] in H.
+    apply (finish_element_allp (eattrs r) st children res); [apply (pa_out _ _ _ _ _ _ Est Edn)| |exact H].
+    destruct (d_body d) as [b|]; [|injection Eg as <-; reflexivity].
+    destruct (proc d t sel None _ None None b) as [[x|]|] eqn:Eb; cbn [bind] in Eg; try discriminate; injection Eg as <-; [|reflexivity].
+    cbn [allp_list forallb]. rewrite (proc_allp _ _ _ _ _ _ _ _ _ Eb). reflexivity.
+  Qed.
+
+  Lemma collect_regions_allp : forall l rs,
+    (forall x o, In x l -> x = Ok (Some o) -> allp o = true) -> collect_regions l = Ok rs -> allp_list rs = true.
+  Proof.
+    induction l as [|x l IH]; intros rs Hall H; cbn [collect_regions] in H.
+    - injection H as <-. reflexivity.
+    - destruct x as [o|]; [|discriminate]. cbn [bind] in H. destruct (collect_regions l) as [xs|] eqn:E; [|discriminate].
+      cbn [bind] in H. injection H as <-.
+      assert (Hxs : allp_list xs = true) by (apply IH; [intros y o' Hy; apply Hall; right; exact Hy | reflexivity]).
+      destruct o as [e|]; [|exact Hxs]. cbn [allp_list forallb]. rewrite (Hall (Ok (Some e)) e (or_introl eq_refl) eq_refl). exact Hxs.
+  Qed.
+
+  Theorem isd_allp d t rs : isd d t = Ok rs -> allp_list rs = true.
+  Proof.
+    unfold isd. intros H. destruct (d_regions d) as [|r0 rest].
+    - apply (collect_regions_allp _ rs) in H; [exact H|]. intros x o [<-|[]] Hx. apply proc_region_allp in Hx. exact Hx.
+    - apply (collect_regions_allp _ rs) in H; [exact H|]. intros x o Hin Hx. apply in_map_iff in Hin as (r & <- & _).
+      apply proc_region_allp in Hx. exact Hx.
+  Qed.
+End AttrPredicate.
+
+Lemma every_allp (p : elem -> bool) (pa : attrs -> bool) rs :
+  (forall e, p e = pa (eattrs e)) -> every rs p = allp_list pa rs.
+Proof.
+  intros H. unfold every, all_of, allp_list, allp. induction rs as [|r rs IH]; [reflexivity|].
+  cbn [flat_map forallb]. rewrite forallb_app, IH. f_equal.
+  generalize (all_elems r). intros l. induction l as [|x l IHl]; [reflexivity | cbn [forallb]; rewrite H, IHl; reflexivity].
+Qed.
+
+(* ---- clauses 0, 1, 2: no begin/end, no animation step, no region reference ---------------------------------- *)
+Definition no_timing (a : attrs) : bool := match e_begin a, e_end a with None, None => true | _, _ => false end.
+Definition no_anims (a : attrs) : bool := match e_anims a with [] => true | _ => false end.
+Definition no_region (a : attrs) : bool := match e_region a with None => true | _ => false end.
+
+Theorem snapshot_no_timing d t rs : isd d t = Ok rs -> nth 0 (shape_clauses [] false rs) false = true.
+Proof.
+  intros H. cbn [nth shape_clauses]. rewrite (every_allp _ no_timing) by reflexivity.
+  apply (isd_allp no_timing) with (d := d) (t := t); [reflexivity | intros; reflexivity | exact H].
+Qed.
+Theorem snapshot_no_anims d t rs : isd d t = Ok rs -> nth 1 (shape_clauses [] false rs) false = true.
+Proof.
+  intros H. cbn [nth shape_clauses]. rewrite (every_allp _ no_anims) by reflexivity.
+  apply (isd_allp no_anims) with (d := d) (t := t); [reflexivity | intros; reflexivity | exact H].
+Qed.
+Theorem snapshot_no_region_refs d t rs : isd d t = Ok rs -> nth 2 (shape_clauses [] false rs) false = true.
+Proof.
+  intros H. cbn [nth shape_clauses]. rewrite (every_allp _ no_region) by reflexivity.
+  apply (isd_allp no_region) with (d := d) (t := t); [reflexivity | intros; reflexivity | exact H].
+Qed.
